@@ -110,7 +110,21 @@ func runHistory(suite ref.Suite, inSession bool, steps []step, seed uint64, draw
 		call = prepareSame(st.Entry, w.BMC, call)
 		first := true
 		strayCC = st.StrayCC
+		attempt := 0
 		w.BMC.Intercept = func(b *simbmc.BMC, rx *simbmc.Rx) {
+			if st.Fault == "busy-then-stray" && rx.Msg != nil && !rx.Msg.IsResponse() && len(rx.Replies) > 0 {
+				// the command's own first answer is "node busy"; when the library
+				// sends it again, a reply to another command is read before the
+				// genuine one
+				attempt++
+				switch attempt {
+				case 1:
+					rx.Replies = []memnet.Out{b.Wrap(rx.Sess, b.ResponseFor(rx.Msg, 0xC0, nil).Bytes())}
+				case 2:
+					rx.Replies = append([]memnet.Out{strayReply(b, rx)}, rx.Replies...)
+				}
+				return
+			}
 			if (st.Fault == "stray-lost" || st.Fault == "stray-expire") && rx.Msg != nil {
 				// the stray is all this call ever receives: its own replies are lost
 				rx.Replies = nil
@@ -153,7 +167,7 @@ func runHistory(suite ref.Suite, inSession bool, steps []step, seed uint64, draw
 		if sends > 8 {
 			return fmt.Sprintf("step %d (%s): %d transmissions, beyond the attempt budget", i, call.Name, sends), foreign
 		}
-		if st.Fault == "stray" || st.Fault == "stray-lost" || st.Fault == "stray-expire" {
+		if st.Fault == "stray" || st.Fault == "stray-lost" || st.Fault == "stray-expire" || st.Fault == "busy-then-stray" {
 			headForeign = true
 		}
 		foreign = foreign || headForeign
@@ -198,7 +212,7 @@ func prepareSame(entry string, b *simbmc.BMC, first *hx.Call) *hx.Call {
 	return first.Fresh()
 }
 
-var faults = []string{"duplicate", "delayed", "unsolicited", "stray", "stray-lost", "stray-expire"}
+var faults = []string{"duplicate", "delayed", "unsolicited", "stray", "stray-lost", "stray-expire", "busy-then-stray"}
 
 // strayCodes are the completion codes a stray datagram may carry: normal,
 // the temporary ones (node busy, timeout, out of space...), and permanent ones.
@@ -218,7 +232,7 @@ func TestPairs(t *testing.T) {
 					n++
 					steps := []step{{a.Name, f, 0}, {b.Name, "", 0}, {a.Name, "", 0}, {b.Name, "", 0}}
 					cc := strayCodes[(n/len(faults))%len(strayCodes)]
-					if f == "unsolicited" || f == "stray" || f == "stray-lost" || f == "stray-expire" {
+					if f == "unsolicited" || f == "stray" || f == "stray-lost" || f == "stray-expire" || f == "busy-then-stray" {
 						steps = []step{{a.Name, "", 0}, {b.Name, f, cc}, {a.Name, "", 0}, {b.Name, "", 0}}
 					}
 					msg, foreign := runHistory(suites[(n+int(ev.Seed))%9], inSession, steps, uint64(ev.Seed)*65537+uint64(n), n*13+int(ev.Seed))
